@@ -3,6 +3,8 @@
 # (scratch worktrees, /repo untouched) and compares the outcome with meta.json's "expected" (caught|missed).
 cd "$(dirname "$0")/.."
 ids=("$@"); [ ${#ids[@]} -eq 0 ] && ids=($(ls seeded))
+./check SMOKE-none >/dev/null 2>&1 # builds bin/gosym if needed
+export GOSYM_BIN=$(mktemp /tmp/gosym-matrix-XXXXXX); cp bin/gosym "$GOSYM_BIN"; chmod 755 "$GOSYM_BIN"; trap 'rm -f "$GOSYM_BIN"' EXIT
 run() {
   s="$1"; chk=$(jq -r .check seeded/$s/meta.json); exp=$(jq -r .expected seeded/$s/meta.json)
   tools/tryseed.sh "$chk" "seeded/$s/patch.diff" > /tmp/seedmatrix.$s.log 2>&1; rc=$?
